@@ -1579,6 +1579,36 @@ CLEANUP:
 	EG_RETURN (rval);
 }
 
+/* A nonbasic column can only rest at a finite bound.  After a bound change
+ * make the status kept in the stored basis agree with the new bounds and
+ * force that basis to be reloaded, otherwise the next solve starts from a
+ * variable sitting at an infinite (in-band 1e150) bound. */
+static void basis_after_bound_change (
+	EGLPNUM_TYPENAME_QSdata * p,
+	int indx)
+{
+	EGLPNUM_TYPENAME_ILLlp_basis *B = p->basis;
+	int col, linf, uinf;
+
+	p->factorok = 0;
+	if (!B || !B->cstat || indx < 0 || indx >= B->nstruct ||
+			indx >= p->qslp->nstruct)
+		return;
+	col = p->qslp->structmap[indx];
+	linf = EGLPNUM_TYPENAME_EGlpNumIsEqqual (p->qslp->lower[col], EGLPNUM_TYPENAME_ILL_MINDOUBLE);
+	uinf = EGLPNUM_TYPENAME_EGlpNumIsEqqual (p->qslp->upper[col], EGLPNUM_TYPENAME_ILL_MAXDOUBLE);
+	if (B->cstat[indx] == QS_COL_BSTAT_BASIC)
+		return;
+	if (linf && uinf)
+		B->cstat[indx] = QS_COL_BSTAT_FREE;
+	else if (B->cstat[indx] == QS_COL_BSTAT_UPPER && uinf)
+		B->cstat[indx] = QS_COL_BSTAT_LOWER;
+	else if (B->cstat[indx] == QS_COL_BSTAT_LOWER && linf)
+		B->cstat[indx] = QS_COL_BSTAT_UPPER;
+	else if (B->cstat[indx] == QS_COL_BSTAT_FREE)
+		B->cstat[indx] = linf ? QS_COL_BSTAT_UPPER : QS_COL_BSTAT_LOWER;
+}
+
 EGLPNUM_TYPENAME_QSLIB_INTERFACE int EGLPNUM_TYPENAME_QSchange_bounds (
 	EGLPNUM_TYPENAME_QSdata * p,
 	int num,
@@ -1587,12 +1617,16 @@ EGLPNUM_TYPENAME_QSLIB_INTERFACE int EGLPNUM_TYPENAME_QSchange_bounds (
 	const EGLPNUM_TYPE * bounds)
 {
 	int rval = 0;
+	int i;
 
 	rval = check_qsdata_pointer (p);
 	CHECKRVALG (rval, CLEANUP);
 
 	rval = EGLPNUM_TYPENAME_ILLlib_chgbnds (p->lp, num, collist, lu, bounds);
 	CHECKRVALG (rval, CLEANUP);
+
+	for (i = 0; i < num; i++)
+		basis_after_bound_change (p, collist[i]);
 
 	free_cache (p);
 
@@ -1614,6 +1648,8 @@ EGLPNUM_TYPENAME_QSLIB_INTERFACE int EGLPNUM_TYPENAME_QSchange_bound (
 
 	rval = EGLPNUM_TYPENAME_ILLlib_chgbnd (p->lp, indx, lu, bound);
 	CHECKRVALG (rval, CLEANUP);
+
+	basis_after_bound_change (p, indx);
 
 	free_cache (p);
 
